@@ -124,11 +124,19 @@ def _core():
     axiom(T, "concat-len", FA([s, t], len_(seq_concat(s, t)) == len_(s) + len_(t), [seq_concat(s, t)]))
     axiom(T, "concat-nth", FA([s, t, i], nth(seq_concat(s, t), i) == z3.If(i < len_(s), nth(s, i), nth(t, i - len_(s))),
                                [nth(seq_concat(s, t), i)]))
+    axiom(T, "concat-left", FA([s, t, i], z3.Implies(z3.And(0 <= i, i < len_(s)), nth(seq_concat(s, t), i) == nth(s, i)),
+                                [(seq_concat(s, t), nth(s, i))]))
+    axiom(T, "concat-right", FA([s, t, i], z3.Implies(z3.And(0 <= i, i < len_(t)), nth(seq_concat(s, t), len_(s) + i) == nth(t, i)),
+                                 [(seq_concat(s, t), nth(t, i))]))
     axiom(T, "slice-len", FA([s, a, b], z3.Implies(z3.And(0 <= a, a <= b, b <= len_(s)),
                                                      len_(seq_slice(s, a, b)) == b - a), [seq_slice(s, a, b)]))
     axiom(T, "slice-nth", FA([s, a, b, i], z3.Implies(z3.And(0 <= a, a <= b, b <= len_(s), 0 <= i, i < b - a),
                                                         nth(seq_slice(s, a, b), i) == nth(s, a + i)),
                               [nth(seq_slice(s, a, b), i)]))
+    k_ = const("k_", I)
+    axiom(T, "slice-nth-rev", FA([s, a, b, k_], z3.Implies(z3.And(0 <= a, a <= k_, k_ < b, b <= len_(s)),
+                                                            nth(seq_slice(s, a, b), k_ - a) == nth(s, k_)),
+                                  [(seq_slice(s, a, b), nth(s, k_))]))
     axiom(T, "rev-len", FA(s, len_(seq_rev(s)) == len_(s), [seq_rev(s)]))
     axiom(T, "rev-nth", FA([s, i], z3.Implies(z3.And(0 <= i, i < len_(s)), nth(seq_rev(s), i) == nth(s, len_(s) - 1 - i)),
                             [nth(seq_rev(s), i)]))
